@@ -176,3 +176,43 @@ pub fn invalid_lat() -> BoxedStrategy<f64> {
   ]
   .boxed()
 }
+
+/// An invalid cell number (>= `n`, the number of cells) of any magnitude, as a pure function of
+/// three generated values: just above `n`, small multiples of `n`, the top of `u64`, uniform in
+/// `[n, u64::MAX]`, uniform in bit length, and `(m << shift) | low` with `m >= 12` of any bit
+/// length (`shift = 2 depth`: a non-existing base cell followed by arbitrary in-cell bits).
+pub fn make_invalid_hash(n: u64, shift: u32, how: u8, a: u64, b: u64) -> u64 {
+  let bitlen = |v: u64| 64 - v.leading_zeros();
+  let with_bits = |bits: u32, raw: u64| -> u64 {
+    if bits == 0 {
+      0
+    } else if bits >= 64 {
+      raw | (1u64 << 63)
+    } else {
+      (1u64 << (bits - 1)) | (raw & ((1u64 << (bits - 1)) - 1))
+    }
+  };
+  let v = match how % 7 {
+    0 => n + (a % 2),
+    1 => n.saturating_add(a % 1000),
+    2 => n.saturating_mul(2).saturating_add(a % 1000),
+    3 => u64::MAX - (a % 1000),
+    4 => n.saturating_add(a % (u64::MAX - n)),
+    5 => {
+      let lo = bitlen(n);
+      with_bits(lo + (a % (65 - lo) as u64) as u32, b)
+    }
+    _ => {
+      let max_m_bits = 64 - shift; // m < 2^max_m_bits
+      let bits = 4 + (a % (max_m_bits as u64 - 3)) as u32; // 4..=max_m_bits
+      let m = with_bits(bits.min(max_m_bits), b.rotate_left(17)).max(12);
+      let low = if shift == 0 { 0 } else { b & ((1u64 << shift) - 1) };
+      (m << shift) | low
+    }
+  };
+  v.max(n)
+}
+
+pub fn invalid_hash_parts() -> BoxedStrategy<(u8, u64, u64)> {
+  (0u8..7, any::<u64>(), any::<u64>()).boxed()
+}
